@@ -368,16 +368,29 @@ fn parse_token(text: &str) -> IResult<&str, Token> {
 
 fn parse_value(text: &str) -> IResult<&str, RawValue> {
     // A value ends at the `;`, or at the `}` which closes the block when
-    // the final `;` has been left out.  A `{}` block inside the value
-    // belongs to it, with any `;` it contains.
+    // the final `;` has been left out.  Brackets nest: a `()`, `[]` or `{}`
+    // block inside the value belongs to it, with any `;` it contains.
     let mut rest = text;
     let mut tokens = Vec::new();
-    let mut depth = 0usize;
+    let mut bra_stack = vec![];
     while let Ok((remain, token)) = parse_token(rest) {
-        match token {
-            Token::OpenBrace => depth += 1,
-            Token::CloseBrace if depth > 0 => depth -= 1,
-            Token::Semicolon | Token::CloseBrace if depth == 0 => break,
+        match &token {
+            Token::Function(_) | Token::OpenRound => bra_stack.push(Token::CloseRound),
+            Token::OpenSquare => bra_stack.push(Token::CloseSquare),
+            Token::OpenBrace => bra_stack.push(Token::CloseBrace),
+            Token::CloseRound | Token::CloseSquare => {
+                if bra_stack.last() == Some(&token) {
+                    bra_stack.pop();
+                }
+            }
+            Token::CloseBrace => {
+                // Brackets left open inside a block end with the block.
+                match bra_stack.iter().rposition(|t| *t == Token::CloseBrace) {
+                    Some(pos) => bra_stack.truncate(pos),
+                    None => break,
+                }
+            }
+            Token::Semicolon if bra_stack.is_empty() => break,
             _ => (),
         }
         tokens.push(token);
